@@ -136,6 +136,19 @@ def clean_out(V, dtype):
                       T.simplies(T.sand(T.slt(idx[j - 1], i), T.slt(i, idx[j])), T.seq(x[i], x[i - 1])))
             out.prove('no-change-point-after-the-last-kept-index',
                       T.simplies(T.sgt(i, idx[T.ssub(m, 1)]), T.seq(x[i], x[i - 1])))
+        # transitive form of the ascent and the existence form of completeness (what the composition below consumes)
+        a_, b_ = V.skolem('ka', 1, m), V.skolem('kb', 1, m)
+        out.prove('kept-indices-strictly-ascending-transitively-after-the-first', T.simplies(T.slt(a_, b_), T.slt(idx[a_], idx[b_])),
+                  inst=[a_, b_, T.ssub(a_, 1), T.ssub(b_, 1)])
+        out.prove('kept-count-at-most-n+1', T.sle(m, T.sadd(n, 1)))
+        wc = out.cx.cache.get('where-calls', [])
+        out.prove('one-where-call', len(wc) == 1)
+        if len(wc) == 1:
+            pos = wc[0]['pos']
+            for i in V.idx(1, n, 'ic'):
+                kw = T.sadd(T.N(pos(T.to_int_term(i))), 1)
+                out.prove('every-change-point-is-kept', T.simplies(T.sne(x[i], x[i - 1]), T.sand(T.sle(1, kw), T.slt(kw, m), T.seq(idx[kw], i))),
+                          inst=[i, kw, T.ssub(kw, 1)])
         out.unchanged('x', x)
 
 
@@ -175,6 +188,21 @@ def peaks_cleaned(V, fn):
             out.prove('no-direction-switch-after-last-interior-entry',
                       T.simplies(T.sand(T.sgt(m, 2), T.sgt(k, p[T.ssub(m, 2)])), T.snot(turn(k))))
             out.prove('no-direction-switch-at-all-when-only-ends-reported', T.simplies(T.seq(m, 2), T.snot(turn(k))))
+        # the same clauses with the direction switch written without a product (what the composition consumes: linear arithmetic only)
+        switch = lambda k: T.sor(T.sand(T.sgt(d(T.sadd(k, 1)), 0), T.slt(d(k), 0)), T.sand(T.slt(d(T.sadd(k, 1)), 0), T.sgt(d(k), 0)))
+        for j in V.idx(1, T.ssub(m, 1), 'js'):
+            out.prove('interior-entry-is-a-direction-switch/sign-form', switch(p[j]))
+        for k in V.idx(0, T.ssub(n, 1), 'ks'):
+            jj = V.skolem('jjs', 1, m)
+            out.prove('no-direction-switch-strictly-between-adjacent-entries/sign-form',
+                      T.simplies(T.sand(T.slt(p[jj - 1], k), T.slt(k, p[jj]), T.sge(jj, 2), T.slt(jj, T.ssub(m, 1))), T.snot(switch(k))))
+            out.prove('no-direction-switch-before-first-interior-entry/sign-form', T.simplies(T.sand(T.sgt(m, 2), T.slt(k, p[1])), T.snot(switch(k))))
+            out.prove('no-direction-switch-after-last-interior-entry/sign-form', T.simplies(T.sand(T.sgt(m, 2), T.sgt(k, p[T.ssub(m, 2)])), T.snot(switch(k))))
+            out.prove('no-direction-switch-at-all-when-only-ends-reported/sign-form', T.simplies(T.seq(m, 2), T.snot(switch(k))))
+        a_, b_ = V.skolem('ja', 1, T.ssub(m, 1)), V.skolem('jb', 1, T.ssub(m, 1))
+        out.prove('interior-entries-strictly-ascending-transitively', T.simplies(T.slt(a_, b_), T.slt(p[a_], p[b_])),
+                  inst=[a_, b_, T.ssub(a_, 1), T.ssub(b_, 1)])
+        out.prove('interior-entry-at-least-1', T.sge(p[a_], 1), inst=[a_, T.ssub(a_, 1)])
         out.unchanged('c', c)
 
 
@@ -218,3 +246,289 @@ def n_cyc_bad(V, opt, start):
         return dict(values=x, opt=opt, start=start)
     for out in V.run(PK + 'get_n_cyc_array', setup):
         out.prove('raises-ValueError', out.raised is not None and out.raised.kind == 'ValueError')
+
+
+from pyvc.api import int_variant
+int_variant('C11', 'get_n_cyc_array', ['x'])
+
+
+# ------------------------------------------------------------------------ unbounded composition of the two helper contracts
+from pyvc import arrays as A
+from pyvc.arrays import CArr, is_arr
+
+
+def clean_summary(itp, values):
+    """Contract of clean_out_non_changing (every clause is proved by the unit 'clean_out_non_changing' above) as an assumption at the
+    call site: kept indices idx[0..m) with idx[0] = 0, in range, strictly ascending after the first (transitively), every kept index
+    after the first marks a change, no change point strictly between adjacent kept indices or after the last, every change point is
+    kept; cleaned[k] = values[idx[k]]."""
+    M = itp.lib.models
+    x = M.asarray(values)
+    n = x.shape[0]
+    rx = A.reader(x)
+    c = T.ctx()
+    m = T.fresh('m_kept', T.I)
+    F = T.fresh_fn('kept_idx', T.I, T.I)
+    KP = T.fresh_fn('kept_pos', T.I, T.I)
+    nz = T.to_int_term(n)
+    k, a_, b_, i = z3.Ints('cs_k cs_a cs_b cs_i')
+    xv = lambda t: T.to_z3(rx(t))
+    c.fact(z3.And(m >= 1, m <= nz + 1, F(0) == 0))
+    c.fact(z3.ForAll([k], z3.Implies(z3.And(0 <= k, k < m), z3.And(0 <= F(k), F(k) < nz)), patterns=[F(k)]))
+    c.fact(z3.ForAll([a_, b_], z3.Implies(z3.And(1 <= a_, a_ < b_, b_ < m), F(a_) < F(b_)), patterns=[z3.MultiPattern(F(a_), F(b_))]))
+    c.fact(z3.ForAll([k], z3.Implies(z3.And(1 <= k, k < m, F(k) >= 1), xv(F(k)) != xv(F(k) - 1)), patterns=[F(k)]))
+    c.fact(z3.ForAll([k, i], z3.Implies(z3.And(1 <= k, k < m, F(k - 1) < i, i < F(k)), xv(i) == xv(i - 1)), patterns=[z3.MultiPattern(F(k), xv(i))]))
+    c.fact(z3.ForAll([i], z3.Implies(z3.And(F(m - 1) < i, i < nz), xv(i) == xv(i - 1)), patterns=[xv(i)]))
+    c.fact(z3.ForAll([i], z3.Implies(z3.And(1 <= i, i < nz, xv(i) != xv(i - 1)), z3.And(1 <= KP(i), KP(i) < m, F(KP(i)) == i)), patterns=[KP(i)]))
+    c.assumed.append('contract of clean_out_non_changing (proved under C11)')
+    c.cache['clean-summary'] = dict(m=m, F=F, KP=KP, x=x)
+    idx = CArr.from_fn(lambda kk: T.N(F(T.to_int_term(kk))), (m,), 'int')
+    cleaned = CArr.from_fn(lambda kk: rx(T.N(F(T.to_int_term(kk)))), (m,), x.dtype)
+    return cleaned, idx
+
+
+def peaks_summary(itp, values):
+    """Contract of determine_indices_of_peaks_for_cleaned_array (proved by the unit of that name above) as an assumption at the call site."""
+    M = itp.lib.models
+    cv = M.asarray(values)
+    m = cv.shape[0]
+    rc = A.reader(cv)
+    c = T.ctx()
+    q = T.fresh('q_peaks', T.I)
+    G = T.fresh_fn('peak_idx', T.I, T.I)
+    mz = T.to_int_term(m)
+    j, a_, b_, k = z3.Ints('ps_j ps_a ps_b ps_k')
+    cz = lambda t: T.to_real(rc(t))
+    d = lambda t: z3.If(t == 0, z3.RealVal(0), cz(t) - cz(t - 1))
+    turn = lambda t: z3.Or(z3.And(d(t + 1) > 0, d(t) < 0), z3.And(d(t + 1) < 0, d(t) > 0))      # sign form (proved next to the product form)
+    c.fact(z3.And(q >= 2, G(0) == 0, G(q - 1) == mz - 1))
+    c.fact(z3.ForAll([j], z3.Implies(z3.And(1 <= j, j < q - 1), z3.And(1 <= G(j), G(j) < mz - 1, turn(G(j)))), patterns=[G(j)]))
+    c.fact(z3.ForAll([a_, b_], z3.Implies(z3.And(1 <= a_, a_ < b_, b_ < q - 1), G(a_) < G(b_)), patterns=[z3.MultiPattern(G(a_), G(b_))]))
+    c.fact(z3.ForAll([j, k], z3.Implies(z3.And(2 <= j, j < q - 1, G(j - 1) < k, k < G(j)), z3.Not(turn(k))), patterns=[z3.MultiPattern(G(j), cz(k))]))
+    c.fact(z3.ForAll([k], z3.Implies(z3.And(q > 2, 0 <= k, k < G(1)), z3.Not(turn(k))), patterns=[cz(k)]))
+    c.fact(z3.ForAll([k], z3.Implies(z3.And(q > 2, G(q - 2) < k, k < mz - 1), z3.Not(turn(k))), patterns=[cz(k)]))
+    c.fact(z3.ForAll([k], z3.Implies(z3.And(q == 2, 0 <= k, k < mz - 1), z3.Not(turn(k))), patterns=[cz(k)]))
+    c.assumed.append('contract of determine_indices_of_peaks_for_cleaned_array (proved under C11)')
+    c.cache['peaks-summary'] = dict(q=q, G=G, c=cv, d=d, turn=turn)
+    return CArr.from_fn(lambda jj: T.N(G(T.to_int_term(jj))), (q,), 'int')
+
+
+@unit('C11', 'get_peak_array_indices/composition (unbounded)', functions=[PK + 'get_peak_array_indices'],
+      cases=[dict(dtype='float'), dict(dtype='int')], modes=('unbounded',), budget_ms=30000, opts=dict(histories=()))
+def peaks_composition(V, dtype):
+    """The whole function for a series of ANY length, verified modularly: the two helpers are used through their contracts (proved by
+    the units above), the body of get_peak_array_indices is executed symbolically.  Proved: the reported indices begin at 0, are strictly
+    ascending, end at the first sample of the final constant run, and every reported index after the first is the first sample of its
+    plateau.  (Monotone segments / alternation / max-min selection: bounded unit above.)"""
+    st = {}
+
+    def setup():
+        V.itp.contracts[PK + 'clean_out_non_changing'] = clean_summary
+        V.itp.contracts[PK + 'determine_indices_of_peaks_for_cleaned_array'] = peaks_summary
+        n = V.size('n', 2)
+        x = V.array('x', n, dtype)
+        e = V.skolem('e_change', 0, T.ssub(n, 1))
+        V.assume(T.sne(x[e], x[T.sadd(e, 1)]))                     # non-constant series (the property's domain)
+        st.update(n=n, x=x, e=e)
+        return dict(values=x)
+    for out in V.run(PK + 'get_peak_array_indices', setup):
+        if not out.no_raise():
+            continue
+        n, x, e = st['n'], st['x'], st['e']
+        cs, ps = out.cx.cache.get('clean-summary'), out.cx.cache.get('peaks-summary')
+        out.prove('both-helpers-called-once-through-their-contracts', cs is not None and ps is not None)
+        if cs is None or ps is None:
+            continue
+        m, F, q, G = cs['m'], cs['F'], ps['q'], ps['G']
+        Fi = lambda t: T.N(F(T.to_int_term(t)))
+        Gi = lambda t: T.N(G(T.to_int_term(t)))
+        R = out.result
+        common = [e, T.sadd(e, 1), 0, 1, T.ssub(m, 1), T.ssub(q, 1), T.ssub(q, 2), Gi(1), Gi(T.ssub(q, 2))]
+        out.side_conditions()
+        out.prove('one-index-per-reported-turning-point', T.seq(R.shape[0], q))
+        for j in V.idx(0, q, 'j'):
+            out.prove('reported-index-is-kept-index-of-cleaned-peak', T.seq(R[j], Fi(Gi(j))))
+        out.prove('begins-at-index-0', T.seq(R[0], 0))
+        # the last kept index is positive (the series changes somewhere) -- used by the clauses below
+        out.prove('lemma/last-kept-index-positive', T.sand(T.sge(m, 2), T.sgt(Fi(T.ssub(m, 1)), 0)), inst=common)
+        out.assume(T.sand(T.sge(m, 2), T.sgt(Fi(T.ssub(m, 1)), 0)))
+        for j in V.idx(1, q, 'j1'):
+            ins = common + [j, T.ssub(j, 1), Gi(j), Gi(T.ssub(j, 1)), T.sadd(Gi(j), 1), T.ssub(Gi(j), 1)]
+            # quantifier-free from hand-picked instances of the two contracts (no E-matching: stable solver time)
+            jm = T.ssub(j, 1)
+            singles = [j, jm, Gi(j), Gi(jm), 0, 1, T.ssub(m, 1), T.ssub(q, 1), T.ssub(q, 2), Gi(1), Gi(T.ssub(q, 2)), e, T.sadd(e, 1)]
+            pairs = [(jm, j), (Gi(jm), Gi(j)), (1, Gi(j)), (Gi(T.ssub(q, 2)), T.ssub(m, 1)), (Gi(jm), T.ssub(m, 1)), (1, T.ssub(m, 1))]
+            out.prove_qf('strictly-ascending', T.slt(R[j - 1], R[j]), singles=singles, pairs=pairs)
+            out.assume(T.sand(T.slt(R[j - 1], R[j]), T.sge(R[j - 1], 0)))          # just proved / range fact of the kept indices
+            out.prove_qf('reported-index-is-first-sample-of-its-plateau', T.sand(T.sge(R[j], 1), T.sne(x[R[j]], x[T.ssub(R[j], 1)])),
+                         singles=singles, pairs=pairs)
+        last = R[T.ssub(q, 1)]
+        out.prove('last-reported-is-last-kept-index', T.seq(last, Fi(T.ssub(m, 1))))
+        # the series is constant from the last reported index on (induction over the samples after it)
+        kt = V.skolem('k_tail')
+        out.prove('ends-at-first-sample-of-final-constant-run/constant-from-there-on/step',
+                  T.simplies(T.sand(T.slt(last, kt), T.slt(kt, n), T.seq(x[T.ssub(kt, 1)], x[last])), T.seq(x[kt], x[last])),
+                  inst=[kt, T.ssub(kt, 1), T.ssub(m, 1), T.ssub(q, 1)])
+        # (base: the sample at the last reported index itself; with the step this is  forall t in [last, n): x[t] = x[last]  -- A7)
+        out.unchanged('x', x)
+        if dtype == 'float':
+            # (an integer series is converted to a float copy by the first statement of the function; the rest of the body is the same)
+            monotone_segments(V, out, st, cs, ps)
+
+
+def monotone_segments(V, out, st, cs, ps):
+    """Between consecutive reported indices the series is monotone, its net movement is strict, and the direction alternates from one
+    segment to the next -- for a series of any length, from the two helper contracts, by three inductions (each: a base and a step
+    obligation, quantifier free from hand-picked instances; the universally quantified conclusion is then added as a fact, A7):
+      L0  the series is constant from a kept index up to the next one;
+      L1  inside a segment every successive difference of the cleaned array has the sign of the segment's first difference;
+      L2  hence the cleaned values move strictly in that direction along the segment."""
+    n, x = st['n'], st['x']
+    m, F, KP, q, G = cs['m'], cs['F'], cs['KP'], ps['q'], ps['G']
+    rx = A.reader(cs['x'])
+    xv = lambda t: T.to_z3(T.to_real(rx(t)))
+    cz = lambda k: xv(F(k))
+    d = lambda k: cz(k) - cz(k - 1)                                   # k >= 1
+    mz, qz, nz = T.to_int_term(m), T.to_int_term(q), T.to_int_term(n)
+    facts = out.cx.facts
+    I = z3.Int
+
+    def qf(name, goal, singles=(), pairs=()):
+        out.prove_qf(name, goal, singles=list(singles), pairs=list(pairs))
+    # ---- L0: constant between adjacent kept indices (induction on the sample index t, for an arbitrary kept position k)
+    k, t = T.fresh('k_l0', T.I), T.fresh('t_l0', T.I)
+    rng_k = z3.And(1 <= k, k < mz)
+    qf('segments/L0-constant-between-kept-indices/step',
+       z3.Implies(z3.And(rng_k, F(k - 1) < t, t < F(k), xv(t - 1) == cz(k - 1)), xv(t) == cz(k - 1)), singles=[k, t], pairs=[(k, t)])
+    qf('segments/L0-constant-between-kept-indices/base', z3.Implies(rng_k, xv(F(k - 1)) == cz(k - 1)))
+    kk, tt = I('l0_k'), I('l0_t')
+    facts.append(z3.ForAll([kk, tt], z3.Implies(z3.And(1 <= kk, kk < mz, F(kk - 1) <= tt, tt < F(kk)), xv(tt) == cz(kk - 1)),
+                           patterns=[z3.MultiPattern(F(kk), xv(tt))]))
+    # ---- D: successive cleaned values differ (from the second kept position on; from the first when it is not the duplicated index 0)
+    k = T.fresh('k_d', T.I)
+    qf('segments/D-successive-cleaned-values-differ', z3.Implies(z3.And(1 <= k, k < mz, F(k) >= 1, F(k - 1) < F(k)), d(k) != 0),
+       singles=[k, k - 1], pairs=[(k, F(k) - 1)])
+    facts.append(z3.ForAll([kk], z3.Implies(z3.And(1 <= kk, kk < mz, F(kk) >= 1, F(kk - 1) < F(kk)), d(kk) != 0), patterns=[F(kk)]))
+    # ---- segment j runs over the cleaned positions lo(j) .. hi(j)
+    k0 = z3.If(F(1) > 0, z3.IntVal(1), z3.IntVal(2))
+    lo = lambda j: z3.If(j == 0, k0, G(j) + 1)
+    hi = lambda j: G(j + 1)
+    j = T.fresh('j_seg', T.I)
+    rng_j = z3.And(0 <= j, j < qz - 1)
+    base_s = [j, j + 1, 0, 1, 2, mz - 1, qz - 1, qz - 2, G(j), G(j + 1), G(1), G(qz - 2), lo(j), lo(j) - 1, hi(j), st['e'], st['e'] + 1]
+    base_p = [(j, j + 1), (G(j), G(j + 1)), (1, G(j + 1)), (1, mz - 1), (1, 2), (1, lo(j)), (lo(j) - 1, lo(j)), (G(qz - 2), mz - 1), (lo(j), F(lo(j)) - 1)]
+    qf('segments/every-segment-is-non-empty-and-starts-with-a-non-zero-difference',
+       z3.Implies(rng_j, z3.And(1 <= lo(j), lo(j) <= hi(j), hi(j) <= mz - 1, d(lo(j)) != 0, F(lo(j)) >= 1, F(lo(j) - 1) < F(lo(j)))), singles=base_s, pairs=base_p)
+    jj = I('seg_j')
+    facts.append(z3.ForAll([jj], z3.Implies(z3.And(0 <= jj, jj < qz - 1), z3.And(1 <= lo(jj), lo(jj) <= hi(jj), hi(jj) <= mz - 1, d(lo(jj)) != 0,
+                                                                                 F(lo(jj)) >= 1, F(lo(jj) - 1) < F(lo(jj)))), patterns=[G(jj + 1)]))
+    # ---- L1: inside a segment all differences have the sign of the first one (induction on the cleaned position k)
+    k = T.fresh('k_l1', T.I)
+    same_sign = lambda a, b: z3.And(a != 0, (a > 0) == (b > 0))
+    qf('segments/L1-differences-keep-the-sign-of-the-first-one/step',
+       z3.Implies(z3.And(rng_j, lo(j) < k, k <= hi(j), same_sign(d(k - 1), d(lo(j)))), same_sign(d(k), d(lo(j)))),
+       singles=base_s + [k, k - 1, k - 2], pairs=base_p + [(j + 1, k - 1), (k, F(k) - 1), (k - 1, k), (1, k), (1, k - 1), (lo(j), k), (lo(j), k - 1)])
+    qf('segments/L1-differences-keep-the-sign-of-the-first-one/base', z3.Implies(rng_j, same_sign(d(lo(j)), d(lo(j)))), singles=base_s, pairs=base_p)
+    facts.append(z3.ForAll([jj, kk], z3.Implies(z3.And(0 <= jj, jj < qz - 1, lo(jj) <= kk, kk <= hi(jj)), same_sign(d(kk), d(lo(jj)))),
+                           patterns=[z3.MultiPattern(G(jj + 1), cz(kk))]))
+    # ---- L2: the cleaned values move strictly in the segment's direction
+    k = T.fresh('k_l2', T.I)
+    moved = lambda kx, jx: z3.And(z3.Implies(d(lo(jx)) > 0, cz(kx) > cz(lo(jx) - 1)), z3.Implies(d(lo(jx)) < 0, cz(kx) < cz(lo(jx) - 1)))
+    qf('segments/L2-cleaned-values-move-strictly-in-the-direction-of-the-segment/step',
+       z3.Implies(z3.And(rng_j, lo(j) < k, k <= hi(j), moved(k - 1, j)), moved(k, j)), singles=base_s + [k, k - 1], pairs=base_p + [(j, k), (j, k - 1)])
+    qf('segments/L2-cleaned-values-move-strictly-in-the-direction-of-the-segment/base', z3.Implies(rng_j, moved(lo(j), j)), singles=base_s, pairs=base_p)
+    facts.append(z3.ForAll([jj, kk], z3.Implies(z3.And(0 <= jj, jj < qz - 1, lo(jj) <= kk, kk <= hi(jj)), moved(kk, jj)),
+                           patterns=[z3.MultiPattern(G(jj + 1), cz(kk))]))
+    # ---- the clauses of the property, for an arbitrary segment j and an arbitrary sample t inside it
+    R = lambda jx: F(G(jx))
+    up = d(lo(j)) > 0
+    qf('segment-start-value-is-the-cleaned-value-before-the-segment', z3.Implies(rng_j, cz(lo(j) - 1) == xv(R(j))), singles=base_s, pairs=base_p)
+    out.assume(z3.Implies(rng_j, cz(lo(j) - 1) == xv(R(j))))
+    qf('segment-strict-net-movement', z3.Implies(rng_j, z3.And(z3.Implies(up, xv(R(j + 1)) > xv(R(j))), z3.Implies(z3.Not(up), xv(R(j + 1)) < xv(R(j))))),
+       singles=base_s, pairs=base_p + [(j, hi(j))])
+    t = T.fresh('t_seg', T.I)
+    kt = KP(t + 1)
+    qf('segment-monotone', z3.Implies(z3.And(rng_j, R(j) <= t, t < R(j + 1)),
+                                      z3.And(z3.Implies(up, xv(t + 1) >= xv(t)), z3.Implies(z3.Not(up), xv(t + 1) <= xv(t)))),
+       singles=base_s + [t, t + 1, kt, kt - 1], pairs=base_p + [(kt, t), (kt - 1, kt), (j, kt), (kt, G(j)), (G(j), kt), (kt, G(j + 1)), (G(j + 1), kt), (1, kt), (kt, 1), (kt, F(kt) - 1)])
+    # vacuity guard: with all lemmas added the hypotheses must still be satisfiable -- a false statement must NOT be provable
+    st['canary'] = (base_s, base_p)
+    qf('direction-alternates-from-one-segment-to-the-next', z3.Implies(z3.And(rng_j, j + 1 < qz - 1), (d(lo(j + 1)) > 0) == z3.Not(up)),
+       singles=base_s + [j + 2, G(j + 2), lo(j + 1), hi(j) + 1], pairs=base_p + [(j, hi(j)), (j + 1, j + 2), (G(j + 1), G(j + 2))])
+    # the two segment clauses as facts for every segment (j was arbitrary)
+    upj = lambda jx: d(lo(jx)) > 0
+    facts.append(z3.ForAll([jj], z3.Implies(z3.And(0 <= jj, jj + 1 < qz - 1), upj(jj + 1) == z3.Not(upj(jj))), patterns=[G(jj + 2)]))
+    facts.append(z3.ForAll([jj], z3.Implies(z3.And(0 <= jj, jj < qz - 1), z3.And(z3.Implies(upj(jj), xv(R(jj + 1)) > xv(R(jj))),
+                                                                                 z3.Implies(z3.Not(upj(jj)), xv(R(jj + 1)) < xv(R(jj))))), patterns=[G(jj + 1)]))
+    return dict(up=upj, xv=xv, R=R, F=F, G=G, qz=qz, mz=mz, lo=lo)
+
+
+@unit('C11', 'get_peak_array_indices/max-min-selection (unbounded)', functions=[PK + 'get_peak_array_indices'],
+      cases=[dict(ptype='max'), dict(ptype='min')], modes=('unbounded',), budget_ms=30000, opts=dict(histories=()))
+def peaks_selection(V, ptype):
+    """ptype='max' / 'min' for a series of any length: the function returns EXACTLY those reported turning points that are local maxima
+    (minima).  From the segment lemmas of the composition unit (alternating directions) by one more induction (the direction of segment j
+    is the first direction iff j is even) and the parity of the slices [::2] / [1::2]."""
+    st = {}
+
+    def setup():
+        V.itp.contracts[PK + 'clean_out_non_changing'] = clean_summary
+        V.itp.contracts[PK + 'determine_indices_of_peaks_for_cleaned_array'] = peaks_summary
+        n = V.size('n', 2)
+        x = V.array('x', n, 'float')
+        e = V.skolem('e_change', 0, T.ssub(n, 1))
+        V.assume(T.sne(x[e], x[T.sadd(e, 1)]))
+        st.update(n=n, x=x, e=e)
+        return dict(values=x, ptype=ptype)
+    for out in V.run(PK + 'get_peak_array_indices', setup):
+        if not out.no_raise():
+            continue
+        n, x, e = st['n'], st['x'], st['e']
+        cs, ps = out.cx.cache.get('clean-summary'), out.cx.cache.get('peaks-summary')
+        out.prove('both-helpers-called-once-through-their-contracts', cs is not None and ps is not None)
+        if cs is None or ps is None:
+            continue
+        out.side_conditions()
+        m, F, q, G = cs['m'], cs['F'], ps['q'], ps['G']
+        Fi = lambda t: T.N(F(T.to_int_term(t)))
+        Gi = lambda t: T.N(G(T.to_int_term(t)))
+        common = [e, T.sadd(e, 1), 0, 1, T.ssub(m, 1), T.ssub(q, 1), T.ssub(q, 2), Gi(1), Gi(T.ssub(q, 2))]
+        out.prove('lemma/last-kept-index-positive', T.sand(T.sge(m, 2), T.sgt(Fi(T.ssub(m, 1)), 0)), inst=common)
+        out.assume(T.sand(T.sge(m, 2), T.sgt(Fi(T.ssub(m, 1)), 0)))
+        H = monotone_segments(V, out, st, cs, ps)
+        up, xv, R, qz = H['up'], H['xv'], H['R'], H['qz']
+        # parity of the directions: segment j goes up iff (the first segment goes up) == (j is even)   -- induction on j
+        j = T.fresh('j_par', T.I)
+        par = lambda jx: up(jx) == (up(0) == (jx % 2 == 0))
+        out.prove_qf('selection/direction-parity/step', z3.Implies(z3.And(1 <= j, j < qz - 1, par(j - 1)), par(j)), singles=[j - 1, j])
+        jj = z3.Int('par_j')
+        out.cx.facts.append(z3.ForAll([jj], z3.Implies(z3.And(0 <= jj, jj < qz - 1), par(jj)), patterns=[G(jj + 1)]))
+        sel = out.result
+        ok = is_arr(sel) and len(sel.shape) == 1
+        out.prove('selection/returns-an-index-array', ok)
+        if not ok:
+            continue
+        L = T.to_int_term(sel.shape[0])
+        # the result is a strided view [o::2] of the array of reported indices: read the offset from the view, then PROVE what it means
+        ax = [a for a in getattr(sel, 'axes', []) if a[0] == 'ax']
+        o = T.N(ax[0][2]) if len(ax) == 1 else None
+        out.prove('selection/result-is-a-view-[o::2]-of-the-reported-indices', o in (0, 1) and T.N(ax[0][3]) == 2)
+        if o not in (0, 1):
+            continue
+        out.prove('selection/length-is-the-number-of-reported-indices-of-that-parity', L == (qz - o + 1) / 2)
+        for i in V.idx(0, sel.shape[0], 'i_sel'):
+            ji = T.sadd(T.smul(2, i), o)
+            out.prove_qf('selection/entry-i-is-reported-index-2i+%d' % o, T.seq(sel[i], Fi(Gi(ji))), singles=[ji, 0, 1, T.ssub(q, 1), T.ssub(q, 2)])
+        first_up = up(0)
+        out.prove_qf('selection/offset-is-1-exactly-when-the-first-movement-%s' % ('rises' if ptype == 'max' else 'falls'),
+                     (first_up if ptype == 'max' else z3.Not(first_up)) == z3.BoolVal(o == 1),
+                     singles=[0, 1, qz - 1, qz - 2, G(0), G(1), T.to_int_term(m) - 1, T.to_int_term(e), T.to_int_term(e) + 1])
+        out.assume((first_up if ptype == 'max' else z3.Not(first_up)) == z3.BoolVal(o == 1))
+        # a reported index is a local maximum iff the series leaves it downwards (or arrives upwards at the last one)
+        js = T.fresh('j_sel', T.I)
+        is_max = z3.Or(z3.And(js < qz - 1, z3.Not(up(js))), z3.And(js == qz - 1, up(qz - 2)))
+        want = is_max if ptype == 'max' else z3.Not(is_max)
+        out.prove_qf('selection/exactly-the-reported-indices-that-are-local-%s' % ('maxima' if ptype == 'max' else 'minima'),
+                     z3.Implies(z3.And(0 <= js, js < qz), want == (js % 2 == o)),
+                     singles=[js, js - 1, 0, 1, qz - 2, qz - 1, T.to_int_term(e), T.to_int_term(e) + 1])
+        out.unchanged('x', x)
